@@ -204,3 +204,38 @@ Theorem C05_reset_mark_bypass_refuted :
   rb_view (recover true 1 0 rb_log rb_main) = (VOk, [AWrite 0 [1]; AWrite 1 [2;2;2;2]; AWrite 5 [3]], 1, 3).
 Proof. exact reset_mark_bypass_refuted. Qed.
 Print Assumptions C05_reset_mark_bypass_refuted.
+
+(* ---- the general form: ANY damaged log whose records up to some segment header are intact (Rpre); the header itself
+   may be damaged (stored checksum crc', length len, both any uint32), followed by any len bytes X' and any rest.  If
+   crc' is not 0 and not the checksum of X', the replay does not get past that header: detection for EVERY corruption
+   that leaves a non-zero stored checksum different from the computed one (and no reset mark for the scanner). *)
+Theorem C05_corrupt_segment_detected : forall Rpre crc' len X' post,
+  forallb rec_range Rpre = true -> crc_ok Rpre = true -> head_sep Rpre = true -> sep_fit Rpre 0 (size Rpre) = true ->
+  u32 crc' = true -> u32 len = true -> lenZ X' = len ->
+  let L' := encode Rpre ++ enc_rec (RSep crc' len) ++ X' ++ post in
+  snd (scan L') = 0 -> crc' <> 0 -> crc32 X' 0 <> crc' ->
+  let f := fst (scan L') in
+  replay_ops true 1 0 L' =
+    if f =? 0 then (VOk, []) else
+    if existsb (Z.eqb f) (sp_offsets Rpre 0) then (VOk, ops_before Rpre 0 f) else (VCorrupt, bops Rpre).
+Proof. exact corrupt_segment_detected. Qed.
+Print Assumptions C05_corrupt_segment_detected.
+Example C05_corrupt_segment_detected_ex :   (* header damaged as well: stored checksum 7; garbage body, resp. a planted savepoint *)
+  let Rpre := firstn 3 rb_R in
+  forallb rec_range Rpre = true /\ crc_ok Rpre = true /\ head_sep Rpre = true /\ sep_fit Rpre 0 (size Rpre) = true /\
+  replay_ops true 1 0 (encode Rpre ++ enc_rec (RSep 7 5) ++ [1;2;3;4;5] ++ [9;9;9]) = (VOk, [AWrite 0 [1]]) /\  (* scanner stops in the garbage *)
+  replay_ops true 1 0 (encode Rpre ++ enc_rec (RSep 7 12) ++ [5;0;0;0;0;0;0;0;0;0;0;0] ++ []) = (VCorrupt, [AWrite 0 [1]]).
+Proof. vm_compute. repeat split; reflexivity. Qed.
+
+(* "crc = 0 means unchecked" is part of the format, and the stored checksums are covered by nothing: the first escape
+   needs no collision.  9 changed bytes - segment checksum -> 0, WRITE checksum -> 0, one payload byte - and the open
+   succeeds on a store holding a byte no operation ever wrote (reported against the unmodified library; replayed by
+   checks/C05.py, class crc-zero-unchecked).  The full statement of C05 ("any corruption ... either makes the open fail
+   or still yields a savepoint state") is therefore FALSE of the format; what holds is C05_corrupt_segment_detected. *)
+Theorem C05_crc_zero_unchecked_refuted :
+  (firstn 4 (skipn 49 rb_log) <> [0;0;0;0] /\ firstn 4 (skipn 61 rb_log) <> [0;0;0;0] /\ nth 77 rb_log 0 = 2) /\
+  length cz_L' = length rb_log /\ scan cz_L' = (126, 0) /\
+  let '(v, m, ops) := recover true 1 0 cz_L' rb_main in
+  (v, ops, firstn 6 m) = (VOk, [AWrite 0 [1]; AWrite 1 [9;2;2;2]; AWrite 5 [3]], [1;9;2;2;2;3]).
+Proof. exact crc_zero_unchecked_refuted. Qed.
+Print Assumptions C05_crc_zero_unchecked_refuted.
